@@ -96,8 +96,11 @@ def gen(ch):
                 a["cost_in"] = 0.2
             else:
                 a["nodes"] = ["n1", "n2"]
-        lv = ch.pick("x.levels", [(0.0, 0.0), (2.0, 2.0)])
+        lv = ch.pick("x.levels", [(0.0, 0.0), (2.0, 2.0), (1.0, 3.0)])
         a["start_level"], a["end_level"] = lv
+        infl = ch.pick("x.inflow", [0.0, 0.1])
+        if infl:
+            a["inflow"] = r(infl, g)
     elif target in ("transport", "ext_transport"):
         a = dict(type="Transport", name="x", nodes=["n1", "n2"], min_cap=0.0, max_cap=r(2.0, g))
         e = ch.pick("x.efficiency", [1.0, 0.8])
